@@ -473,6 +473,26 @@ class Gen:
         E.append(("abstract:in-tuple", '(tuple (int/s64 "9223372036854775807") (int/u64 "5"))'))
         E.append(("abstract:as-key", '{(int/s64 -1) 1 (int/u64 "18446744073709551615") 2}'))
         E.append(("abstract:as-key", '(struct (int/u64 "18446744073709551615") 2 (int/s64 "-1") 1)'))
+        # abstract values WITHOUT compare / hash hooks (identity: janet_compare_abstract falls back to type pointer, then address;
+        # janet_hash to the pointer hash): two objects of each of three types, each pushed twice, also inside tuples, as struct
+        # keys and values, next to boxed integers
+        self.prelude += ["(def ab0 (math/rng 1))", "(def ab1 (math/rng 1))", "(def ab2 (parser/new))", "(def ab3 (parser/new))",
+                         '(def ab4 (peg/compile "a"))', '(def ab5 (peg/compile "a"))', '(def abi (int/s64 "77"))']
+        for i in range(6):
+            E.append(("abstract:unhooked", "ab%d" % i))
+        for i in range(6):
+            E.append(("abstract:unhooked-again", "ab%d" % i))
+        E.append(("abstract:unhooked-in-tuple", "[ab0 ab2]"))
+        E.append(("abstract:unhooked-in-tuple", "(tuple ab0 ab2)"))
+        E.append(("abstract:unhooked-in-tuple", "[ab1 ab2]"))
+        E.append(("abstract:unhooked-in-tuple", "[ab0 (int/s64 3) ab4]"))
+        E.append(("abstract:unhooked-in-tuple", '[ab0 (int/s64 "3") ab4]'))
+        E.append(("abstract:unhooked-as-key", "{ab0 1 ab3 (int/u64 2)}"))
+        E.append(("abstract:unhooked-as-key", '(struct ab3 (int/u64 "2") ab0 1)'))
+        E.append(("abstract:same-object-twice", "[abi abi]"))
+        E.append(("abstract:same-object-twice", '[abi (int/s64 "77")]'))
+        E.append(("abstract:in-proto", '(struct/with-proto {(int/s64 1) ab5} (int/u64 1) :v)'))
+        E.append(("abstract:in-proto", '(struct/with-proto (struct (int/s64 "1") ab5) (int/u64 "1") :v)'))
         for a in syms + kws:
             srcs = self.atom_srcs(a)
             lab, src = srcs[r.below(len(srcs))]
